@@ -83,10 +83,24 @@ def cases(tier, seed):
             for n in range(max(0, cap - 3), cap + 4):
                 for status in (0, 7):
                     ops += ["rp.backend %d 5 %d" % (status, n), ] + feed(serial, R.request(serial, False, mem == 16, n, 100 + n, n)) + rpf()
+            # requests carrying checksum option bits their transport would not set (accepted all the same): header of 12,
+            # 14 or 16 octets; reads around the transmit limit, small writes
+            for opts in (0, R.HDCRC, R.PLCRC, R.HDCRC | R.PLCRC):
+                o = opts | (R.WS16 if mem == 16 else 0)
+                for n in range(max(0, cap - 4), cap + 5):
+                    ops += ["rp.backend 0 5 %d" % n] + feed(serial, R.frame(R.RREQ, o, 0, n, 200 + n, n)) + rpf()
+                for n in (1, 2, 3):
+                    ops += ["rp.backend 0 0 0"] + feed(serial, R.frame(R.WREQ, o, 0, n, 300 + n, n, R.rbytes(rnd, n * unit))) + rpf()
             # largest writes
             for n in range(max(1, wcap - 2), wcap + 1):
                 ops += ["rp.backend 0 0 0"] + feed(serial, R.request(serial, True, mem == 16, n, n, n, R.rbytes(rnd, n * unit))) + rpf()
             cs.append(Case("req-%d-%s-%d" % (mem, ep, B), ops, ("requests", ep, str(mem))))
+            # the same requests answered into a chunk-style sink that takes 1, 3 or 5 octets per call (a congested socket):
+            # the answer on the wire must not depend on how the sink takes it
+            if B == 128:
+                for mode in ("chunk:1", "chunk:3", "chunk:5", "chunk:0"):
+                    cs.append(Case("req-%d-%s-%d-%s" % (mem, ep, B, mode.replace(":", "")), [ops[0], "rp.sinkmode " + mode] + ops[1:],
+                                   ("requests", "chunk-sink", ep, str(mem))))
             # sessions: requests interleaved with frames that must not be executed
             ops = [R.cfg(mem, ep, B), "rp.backend 0 0 1"]
             for i in range(30 * reps):
